@@ -519,6 +519,8 @@ pub fn world_of(scan: &Scan) -> World {
             "C" => {
                 el.typ = local_name(&s("schema_ref"));
                 el.key = s("key");
+                // a merged-away Concept: `object` carries the id it was merged into
+                el.object = s("merged_into");
                 w.concepts.push(el);
             }
             "P" => {
@@ -700,7 +702,17 @@ impl<'a> Block<'a> {
 
     fn subject_term(&mut self) -> Option<String> {
         let mut c: Vec<String> = self.persons.iter().map(|h| format!("?{h}")).collect();
-        let existing: Vec<String> = self.w.active_of_type("Person").iter().map(|e| e.id.clone()).collect();
+        let mut existing: Vec<String> = self.w.active_of_type("Person").iter().map(|e| e.id.clone()).collect();
+        // now and then a Person that was merged away: the engine resolves it through the whole
+        // merge chain to the surviving Concept (Spec 11.3), whatever the chain's length
+        let deep = |w: &World, e: &El| w.concepts.iter().any(|t| t.id == e.object && t.state == "merged");
+        let mut merged_away: Vec<String> = self.w.concepts.iter().filter(|e| e.state == "merged" && e.typ == "Person" && deep(self.w, e)).map(|e| e.id.clone()).collect();
+        if merged_away.is_empty() || self.rng.chance(1, 3) {
+            merged_away = self.w.concepts.iter().filter(|e| e.state == "merged" && e.typ == "Person").map(|e| e.id.clone()).collect();
+        }
+        if !merged_away.is_empty() && self.rng.chance(1, 4) {
+            existing = merged_away;
+        }
         if !existing.is_empty() && (c.is_empty() || self.rng.bool()) {
             let id = self.rng.pick(&existing).clone();
             if let Some(p) = self.param_ref(&id) {
@@ -717,7 +729,15 @@ impl<'a> Block<'a> {
             .chain(self.persons.iter())
             .map(|h| format!("?{h}"))
             .collect();
-        let existing: Vec<String> = World::active(&self.w.concepts).iter().map(|e| e.id.clone()).collect();
+        let mut existing: Vec<String> = World::active(&self.w.concepts).iter().map(|e| e.id.clone()).collect();
+        let deep = |w: &World, e: &El| w.concepts.iter().any(|t| t.id == e.object && t.state == "merged");
+        let mut merged_away: Vec<String> = self.w.concepts.iter().filter(|e| e.state == "merged" && deep(self.w, e)).map(|e| e.id.clone()).collect();
+        if merged_away.is_empty() || self.rng.chance(1, 3) {
+            merged_away = self.w.concepts.iter().filter(|e| e.state == "merged").map(|e| e.id.clone()).collect();
+        }
+        if !merged_away.is_empty() && self.rng.chance(1, 4) {
+            existing = merged_away;
+        }
         if !existing.is_empty() && (c.is_empty() || self.rng.bool()) {
             let id = self.rng.pick(&existing).clone();
             if let Some(p) = self.param_ref(&id) {
@@ -949,7 +969,14 @@ impl<'a> Block<'a> {
                     if cs.len() < 2 {
                         continue;
                     }
-                    let a = (*self.rng.pick(&cs)).clone();
+                    let mut a = (*self.rng.pick(&cs)).clone();
+                    // merge chains: half of the time the Concept merged away is one that already
+                    // absorbed another (a -> b earlier, now b -> c), so that ids two and three hops
+                    // from their survivor exist
+                    let survivors: Vec<El> = cs.iter().filter(|c| self.w.concepts.iter().any(|m| m.state == "merged" && m.object == c.id)).map(|c| (*c).clone()).collect();
+                    if !survivors.is_empty() && self.rng.bool() {
+                        a = self.rng.pick(&survivors).clone();
+                    }
                     let b = (*self.rng.pick(&cs)).clone();
                     if a.id == b.id {
                         continue;
